@@ -491,6 +491,8 @@ pub fn lane_timing(tier: Tier, seed: u64) -> Vec<Scenario> {
         ShortCli,
         /// hours: free in virtual time, never exercised with real sleeps
         HugeCli,
+        /// `--timeout-seconds 0` (unlimited) over a short front-matter limit: the command line wins
+        ZeroCliOverFront,
     }
     #[derive(Clone, Copy, Debug, PartialEq)]
     enum TestLim {
@@ -512,7 +514,7 @@ pub fn lane_timing(tier: Tier, seed: u64) -> Vec<Scenario> {
         DurOver,
     }
     for script in [false, true] {
-        for dl in [DocLim::Absent, DocLim::Zero, DocLim::ShortFront, DocLim::ShortCli, DocLim::HugeCli] {
+        for dl in [DocLim::Absent, DocLim::Zero, DocLim::ShortFront, DocLim::ShortCli, DocLim::HugeCli, DocLim::ZeroCliOverFront] {
             for tl in [TestLim::Absent, TestLim::Shorter, TestLim::Longer, TestLim::ShorterInDefaults, TestLim::Huge] {
                 if script && tl != TestLim::Absent {
                     continue;
@@ -529,7 +531,7 @@ pub fn lane_timing(tier: Tier, seed: u64) -> Vec<Scenario> {
                             // the limit that is meant to bite, relative to which the class is defined
                             let doc_ns: Option<u64> = match dl {
                                 DocLim::Absent => Some(900 * SEC),
-                                DocLim::Zero => None,
+                                DocLim::Zero | DocLim::ZeroCliOverFront => None,
                                 DocLim::ShortFront => Some(if script && tier == Tier::Cli { 4 * SEC } else { 4500 * MS }),
                                 DocLim::ShortCli => Some(4 * SEC),
                                 DocLim::HugeCli => Some(7200 * SEC),
@@ -643,6 +645,12 @@ pub fn lane_timing(tier: Tier, seed: u64) -> Vec<Scenario> {
                                     }
                                 }
                                 DocLim::HugeCli => cli.timeout_seconds = Some(7200),
+                                DocLim::ZeroCliOverFront => {
+                                    cli.timeout_seconds = Some(0);
+                                    if format == Format::Md {
+                                        d.total_timeout_ns = Some(2 * SEC);
+                                    }
+                                }
                                 DocLim::ShortCli => {
                                     cli.timeout_seconds = Some(4);
                                     if format == Format::Md {
